@@ -2,7 +2,8 @@
    Only statements, closed by [exact], and Print Assumptions. *)
 From Coq Require Import List Arith ZArith Bool.
 Import ListNotations.
-Require Import MD.Cursor.Model MD.Cursor.Proofs.
+Require Import MD.Cursor.Model MD.Cursor.Proofs MD.Cursor.Extended.
+Require MD.Load.Model MD.Load.Reflect MD.Load.CursorLink.
 
 (* For every file and every sequence of in-range operations the reader produces exactly the
    abstract cursor's outputs (frames returned, positions reported, len). *)
@@ -46,6 +47,81 @@ Theorem len_stable : forall f s,
   snd (nc_fix_step f s Len) = Pos (length f) /\ snd (trr_cur_step f s Len) = Pos (length f).
 Proof. exact len_any_state. Qed.
 Print Assumptions len_stable.
+
+(* ================================================================== beyond the in-range alphabet
+   ext range = in range, plus read(n) for ANY n >= 1: with fewer than n frames left the rest is returned and the
+   position is len; at the end of the file nothing is returned and the position stays (spec_out / spec_pos say so).
+   This is the theorem behind the correspondence's "overread" stream. *)
+Theorem cursor_refines_ext_h5 : forall f ops, all_ext_range (length f) 0 ops = true ->
+  run arr_step f (0, 0) ops = spec_run f 0 ops.
+Proof. intros f ops. exact (run_refines_ext arr_step arr_ok_ext f ops 0 (Nat.le_0_l _)). Qed.
+Print Assumptions cursor_refines_ext_h5.
+
+Theorem cursor_refines_ext_sequential : forall f ops, all_ext_range (length f) 0 ops = true ->
+  run seq_step f (0, 0) ops = spec_run f 0 ops.
+Proof. intros f ops. exact (run_refines_ext seq_step seq_ok_ext f ops 0 (Nat.le_0_l _)). Qed.
+Print Assumptions cursor_refines_ext_sequential.
+
+Theorem cursor_refines_ext_xtc : forall f ops, all_ext_range (length f) 0 ops = true ->
+  run xdr_step f (0, 0) ops = spec_run f 0 ops.
+Proof. intros f ops. exact (run_refines_ext xdr_step xdr_ok_ext f ops 0 (Nat.le_0_l _)). Qed.
+Print Assumptions cursor_refines_ext_xtc.
+
+Theorem cursor_refines_ext_netcdf_fixed : forall f ops, all_ext_range (length f) 0 ops = true ->
+  run nc_fix_step f (0, 0) ops = spec_run f 0 ops.
+Proof. intros f ops. exact (run_refines_ext nc_fix_step nc_fix_ok_ext f ops 0 (Nat.le_0_l _)). Qed.
+Print Assumptions cursor_refines_ext_netcdf_fixed.
+
+(* ================================================================== the two defective readers, characterised exactly
+   over ALL histories (no range condition): every output is the abstract cursor's output at the abstract position p,
+   except tell = p + e; the rules for the excess e (Extended.trr_upd / nc_upd) are the defect.  Frames are always right. *)
+Theorem trr_current_characterised : forall f, length f < trr_chunk -> forall ops p e, p <= length f ->
+  run trr_cur_step f (p, p + e) ops = off_run trr_upd f (p, e) ops.
+Proof. exact trr_cur_characterised. Qed.
+Print Assumptions trr_current_characterised.
+
+Theorem netcdf_current_characterised : forall f ops r,
+  run nc_cur_step f (r, r) ops = off_run nc_upd f (Nat.min r (length f), r - Nat.min r (length f)) ops.
+Proof. exact nc_cur_characterised. Qed.
+Print Assumptions netcdf_current_characterised.
+
+(* ================================================================== per-run tie by translation
+   a reader description extracted from the Python source (coq/Gen/LoadReaders.v) that is assigned one of the conforming
+   cursor families (Gen/CursorReaders.v proves the assignment of C18's FORMATS table on every run) refines the
+   abstract cursor on every ext-range history *)
+Theorem reflected_reader_refines_cursor : forall r v (f : list nat),
+  MD.Load.CursorLink.cursor_family r = Some v -> v <> 7 ->
+  forall ops, all_ext_range (length f) 0 ops = true ->
+  MD.Load.CursorLink.rrun r f MD.Load.Model.st0 ops = spec_run f 0 ops.
+Proof.
+  intros r v f Hv H7 ops Hr.
+  apply (MD.Load.CursorLink.reflected_reader_refines_cursor r v f Hv H7 ops MD.Load.Model.st0 0);
+    [split; reflexivity|apply Nat.le_0_l|exact Hr].
+Qed.
+Print Assumptions reflected_reader_refines_cursor.
+
+(* ================================================================== file variants
+   The model sees a file as the list of its frames and nothing else, and the contract is natural in the frames:
+   whatever a frame carries (cell or no cell; all atoms or, in a CHARMM fixed-atom DCD, only the free ones after the
+   first frame) the same positions, counts and frames-by-index come out.  The variants of the correspondence differ
+   only below that abstraction:
+     no-cell files   the per-frame record is shorter (dcd: no 48-byte cell block; xtc/trr: zero box; nc/h5: no cell arrays);
+     dcd0.dcd        NSET = 0 in the header: len() comes from the file size instead of the header, the list is the same;
+     dcdfix.dcd      fixed atoms: frames after the first store only the free atoms, so a backward seek must re-read
+                     frame 0 (finding C18-dcd-fixed-atoms-backward-seek, repaired) - the frame LIST is unchanged;
+     xyznonl.xyz     no final newline: the last frame ends at EOF instead of at a newline - one more frame, not a
+                     different cursor.
+   That each of these really yields the same list is what the correspondence checks on real files. *)
+Theorem cursor_contract_natural_in_frames : forall (g : frame -> frame) (f : file) ops p,
+  spec_run (map g f) p ops = map (map_out g) (spec_run f p ops).
+Proof. exact spec_run_natural. Qed.
+Print Assumptions cursor_contract_natural_in_frames.
+
+(* non-vacuity of the ext range: a history with over-reads and reads at the end of the file *)
+Example ext_range_history_exists :
+  all_ext_range 10 0 [Read 7; Read 5; Tell; Read 2; ReadAll; SeekRel (-3); Read 9; Tell; Seek 9; Read 1; Read 1] = true.
+Proof. reflexivity. Qed.
+Print Assumptions ext_range_history_exists.
 
 (* non-vacuity: a non-trivial history satisfies the hypothesis *)
 Example in_range_history_exists :
